@@ -286,7 +286,11 @@ func (svd SigVerificationDecorator) AnteHandle(ctx sdk.Context, tx sdk.Tx, simul
 			if err != nil {
 				return ctx, err
 			}
-			pubKey.VerifySignature(bytesToSign, data.Signature)
+			// the result must be checked: without it anybody could attribute prices to any
+			// validator by attaching that validator's public key and an arbitrary signature.
+			if !simulate && !pubKey.VerifySignature(bytesToSign, data.Signature) {
+				return ctx, sdkerrors.ErrUnauthorized.Wrap("signature verification failed for oracle create-price tx; please verify the consensus key and chain-id")
+			}
 		}
 
 		return next(ctx, tx, simulate)
